@@ -179,6 +179,10 @@ def main(pid: str, path: str) -> int:
     from .scenarios import job
 
     doc = json.load(open(path))
+    if str(doc.get("kind", "")).startswith("wfrow-"):
+        from . import check_wfrow
+
+        return check_wfrow.replay_doc(pid, doc, path)
     if str(doc.get("kind", "")).startswith("slots-"):
         from . import check_slots
 
